@@ -18,7 +18,8 @@ RULE = ('one call of a separation helper per case on real Stream / MultiStream o
         'recorded and compared, its result handed to the model as the oracle value), lle / vle wrappers with the equilibrium '
         'call replaced by a table-driven (conserving or arbitrary) split, efficiencies, top_chemical, multi_stream with the '
         'right and wrong phases, phase_split, chemical_splits, material_balance(flow) with the real np.linalg solver '
-        '(arguments A, b recorded and compared, contract A x = b checked on the returned x). Compared: every outlet / '
+        '(arguments A, b recorded and compared, contract A x = b checked on the returned x), the two-component closed form of '
+        'binary_phase_fraction.phase_fraction and the Rachford-Rice residual function. Compared: every outlet / '
         'mutated inlet flow per phase (1e-9 relative), returned phase fraction, exception class, number of infeasibility '
         'warnings, phases of the outlets. non-trivial = the call returned normally and moved material, or took an '
         'infeasibility / clipping branch; distinct = distinct case hash')
@@ -356,7 +357,28 @@ def gen_balance(rng):
         return c
     raise RuntimeError('gen_balance')
 
-GENS = [('clip', gen_clip, 6), ('mix_split', gen_mix_split, 8), ('moisture', gen_moisture, 12),
+KBIN = [F(2) ** k for k in range(-6, 7)] + [F(1), F(1) + F(1, 2 ** 20), F(1) - F(1, 2 ** 20), F(1) + F(1, 2 ** 40),
+                                            F(1) - F(1, 2 ** 40), F(3, 2), F(3, 4)]
+
+def gen_binary(rng):
+    """equilibrium.binary_phase_fraction.phase_fraction for two components without forced chemicals"""
+    z1 = rng.choice([F(1, 2), F(1, 4), F(3, 4), F(1, 8), F(1), F(0), F(5, 8), F(2)])
+    z2 = 1 - z1 if rng.random() < 0.7 else rng.choice([F(1, 2), F(1, 4), F(0), F(3), F(1)])
+    if rng.random() < 0.05:
+        z1, z2 = F(0), F(0)
+    return {'fn': 'binary', 'z': [fl(z1), fl(z2)], 'K': [fl(rng.choice(KBIN)), fl(rng.choice(KBIN))]}
+
+def gen_rr(rng):
+    """phase_fraction_objective_function, the residual handed to the root finder"""
+    n = rng.randint(1, 4)
+    za = rng.choice([F(0), F(0), F(1, 8), F(1, 4)])
+    zb = rng.choice([F(0), F(0), F(1, 8), F(1, 16)])
+    w = [rng.choice([F(1), F(2), F(3), F(1, 2)]) for _ in range(n)]
+    z = [x * (1 - za - zb) / sum(w) for x in w]
+    return {'fn': 'rr', 'z': [fl(x) for x in z], 'K': [fl(F(2) ** rng.randint(-10, 10)) for _ in range(n)],
+            'za': fl(za), 'zb': fl(zb), 'phi': fl(rng.choice(PHIS))}
+
+GENS = [('binary', gen_binary, 4), ('rr', gen_rr, 4), ('clip', gen_clip, 6), ('mix_split', gen_mix_split, 8), ('moisture', gen_moisture, 12),
         ('mix_moisture', gen_mix_moisture, 4),
         ('partition', gen_partition, 16), ('partition_real', lambda r: gen_partition(r, real=True), 8),
         ('phase_fraction', lambda r: gen_partition(r, real=r.random() < 0.4, fn='phase_fraction'), 4),
@@ -570,6 +592,15 @@ def run_impl(case):
             c = Catch().run(lambda: S.material_balance(ids, vin, cin, cout, case['is_exact'], case['balance']))
         return {'vin': [arr(s) for s in vin], 'err': c.err, 'calls': rec.calls,
                 'const_kept': [arr(s) for s in cin + cout] == case['cin'] + case['cout']}
+    if fn == 'binary':
+        bpf = tmo.equilibrium.binary_phase_fraction
+        c = Catch().run(lambda: bpf.phase_fraction(np.array(case['z'], float), np.array(case['K'], float)))
+        return {'val': None if c.err else float(c.value), 'err': c.err}
+    if fn == 'rr':
+        bpf = tmo.equilibrium.binary_phase_fraction
+        z = np.array(case['z'], float); K = np.array(case['K'], float)
+        c = Catch().run(lambda: bpf.phase_fraction_objective_function(case['phi'], -z * (K - 1.), K - 1., case['za'], case['zb']))
+        return {'val': None if c.err else float(c.value), 'err': c.err}
     raise ValueError(fn)
 
 # ------------------------------------------------------------------ model side
@@ -659,6 +690,13 @@ def coq_case(case, out):
         exp = f'(Err {cerr(out["err"])})' if out['err'] else f'(Ok {qlist(out["val"])})'
         return (f'(resv_approxb (chemical_splits {cbool(out["heur"])} {qlist(case["a"])} {cvopt(case["b"])} '
                 f'{cvopt(case["mixed"])}) {exp} && {cbool(out["a_after"] == case["a"])})')
+    if fn == 'binary':
+        exp = f'(Err {cerr(out["err"])})' if out['err'] else f'(Ok {q(out["val"])})'
+        z, K = case['z'], case['K']
+        return f'(resq_approxb (binary_phase_fraction_2 {q(z[0])} {q(z[1])} {q(K[0])} {q(K[1])}) {exp})'
+    if fn == 'rr':
+        return (f'(qapproxb (rr_objective {q(case["phi"])} {qlist(case["z"])} {qlist(case["K"])} {q(case["za"])} '
+                f'{q(case["zb"])}) {q(out["val"])} && {cbool(out["err"] is None)})')
     if fn == 'balance':
         calls = out['calls']
         if len(calls) > 1:
@@ -698,7 +736,7 @@ def nontrivial(case, out):
     fn = case['fn']
     if out.get('err'):
         return out['err'] == 'InfeasibleRegion'
-    if fn == 'clip':
+    if fn in ('clip', 'binary', 'rr'):
         return True
     if fn in ('mix_split', 'partition', 'lle', 'vle'):
         return any(out['top']) or any(out['bot'])
@@ -761,6 +799,26 @@ def oracle(case):
         return oracle_real_eq(case)
     out = run_impl(case)
     err = out.get('err')
+    if fn == 'binary':
+        if err:
+            return None if sum(case['z']) == 0 else f'binary phase_fraction: raised {err}'
+        phi = out['val']
+        if not 0 <= phi <= 1:
+            return f'binary phase_fraction: returned {phi}'
+        if 0 < phi < 1 and sum(case['z']) > 0:
+            res = sum(z * (k - 1) / (1 + phi * (k - 1)) for z, k in zip(case['z'], case['K']))
+            if abs(res) > 1e-9 * max(1., max(case['K'])):
+                return f'binary phase_fraction: Rachford-Rice residual {res} at the returned fraction {phi}'
+        return None
+    if fn == 'rr':
+        if err:
+            return f'rr objective: raised {err}'
+        phi = case['phi']
+        ref = (-sum(z * (k - 1) / (1 + phi * (k - 1)) for z, k in zip(case['z'], case['K']))
+               - case['za'] / phi + case['zb'] / (1 - phi))
+        if abs(ref - out['val']) > 1e-9 * max(1., abs(ref)):
+            return f'rr objective: {out["val"]} instead of the Rachford-Rice residual {ref}'
+        return None
     if fn == 'clip':
         if any(m < 0 for m in case['max']):
             return None
@@ -784,6 +842,8 @@ def oracle(case):
         sp = split_vec(case['split'])
         if all(0 <= s <= 1 for s in sp) and not (nonneg(out['top']) and nonneg(out['bot'])):
             return 'mix_and_split: negative outlet flow'
+        if not close(out['top'], [s_ * m for s_, m in zip(sp, vadd(*case['ins']))]):
+            return f'mix_and_split: top outlet {out["top"]} is not split * mixed'
         return None
     if fn in ('moisture', 'mix_moisture'):
         mc = case['mc']
@@ -833,7 +893,12 @@ def oracle(case):
                 return None       # nothing to partition: the division z = mol / F_mol is reported
             return f'{fn}: raised {err} on a valid input'
         if fn == 'phase_fraction':
-            return None if 0 <= out['phi'] <= 1 else f'phase_fraction: returned {out["phi"]}'
+            if not 0 <= out['phi'] <= 1:
+                return f'phase_fraction: returned {out["phi"]}'
+            ref = run_impl(dict(case, fn='partition', top0=[0.] * N, bot0=[0.] * N))
+            if ref['err'] or abs(ref['phi'] - out['phi']) > 1e-9:
+                return f'phase_fraction: returned {out["phi"]}, partition returns {ref["phi"]} ({ref["err"]})'
+            return None
         feed, top, bot = case['feed'], out['top'], out['bot']
         if not close(vadd(top, bot), feed):
             return f'partition: top + bottom = {vadd(top, bot)} differs from the feed {feed}'
@@ -871,6 +936,12 @@ def oracle(case):
             return f'{fn}: negative outlet flow'
         if fn == 'vle' and (out['top'] != a or out['bot'] != b):
             return 'vle: vapour / liquid outlet is not the g / l row of the flash'
+        if fn == 'lle':
+            eff = min(case['eff'], 1.)
+            exp = sorted([[eff * x + (1 - eff) / 2 * f for x, f in zip(r, case['feed'])] for r in (a, b)])
+            if eff >= 0 and not all(close(x, y) for x, y in zip(sorted([out['top'], out['bot']]), exp)):
+                return (f'lle: outlets {out["top"]} / {out["bot"]} are not the two phases with a fraction '
+                        f'{1 - eff} of the feed divided equally')
         return None
     if fn == 'phase_split':
         if len(case['outs0']) != len(case['phases']):
